@@ -2,11 +2,11 @@ module verif
 
 go 1.20
 
-require zombiezen.com/go/commonmark v0.0.0
-
 require (
-	golang.org/x/net v0.8.0 // indirect
-	golang.org/x/text v0.9.0 // indirect
+	golang.org/x/text v0.9.0
+	zombiezen.com/go/commonmark v0.0.0
 )
+
+require golang.org/x/net v0.8.0 // indirect
 
 replace zombiezen.com/go/commonmark => /repo
